@@ -769,14 +769,14 @@ class iindex(dict):
             if not hasattr(coords, "__iter__"):
                 coords = (coords,)
 
-            new_coord = mapping.get(coords[0])
+            # Coords missing from the mapping keep their value.
+            new_coord = mapping.get(coords[0], coords[0])
             if new_coord == new_common:
                 # More than one coord maps to the new common coord.
                 # Skip, but flag so that common is shifted below.
                 merged = True
                 continue
-            if new_coord is not None:
-                coords = (new_coord,) + coords[1:]
+            coords = (new_coord,) + coords[1:]
 
             v = new_entries.get(coords)
             if v is not None:
